@@ -40,36 +40,31 @@ Definition app_of (buffer : N) (b : block) : idx * changes * option N :=
   (bidx b, changes_of false b, rej_arg buffer (bheight b)).
 Definition rev_of (b : block) : idx * changes := (bidx b, changes_of true b).
 
-Definition ids1_of (b : block) : list N :=
-  bConf1 b ++ map (fun t => fst (fst t)) (bRev1 b) ++ bSucc1 b ++ bFail1 b.
-Definition ids2_of (b : block) : list N :=
-  map fst (bConf2 b) ++ map (fun t => fst (fst t)) (bRev2 b) ++ bSucc2 b ++ bRen2 b ++ bFail2 b.
-
 (** * what a block does to one contract *)
 Inductive pev1 := PForm1 | PRev1 (o n : N) | PSucc1 | PFail1.
 Inductive pev2 := PForm2 (r : N) | PRev2 (o n : N) | PSucc2 | PRen2 | PFail2.
 
-Definition memN (id : N) (l : list N) : bool := existsb (N.eqb id) l.
+(* the changes of a block in the order ApplyContracts / RevertContracts go through them *)
+Definition evs1 (b : block) : list (N * pev1) :=
+  map (fun id => (id, PForm1)) (bConf1 b)
+  ++ map (fun t => (fst (fst t), PRev1 (snd (fst t)) (snd t))) (bRev1 b)
+  ++ map (fun id => (id, PSucc1)) (bSucc1 b)
+  ++ map (fun id => (id, PFail1)) (bFail1 b).
+Definition evs2 (b : block) : list (N * pev2) :=
+  map (fun p => (fst p, PForm2 (snd p))) (bConf2 b)
+  ++ map (fun t => (fst (fst t), PRev2 (snd (fst t)) (snd t))) (bRev2 b)
+  ++ map (fun id => (id, PSucc2)) (bSucc2 b)
+  ++ map (fun id => (id, PRen2)) (bRen2 b)
+  ++ map (fun id => (id, PFail2)) (bFail2 b).
+
+(* the contracts a block mentions; a block mentions a contract at most once *)
+Definition ids1_of (b : block) : list N := map fst (evs1 b).
+Definition ids2_of (b : block) : list N := map fst (evs2 b).
 
 Definition ev1_of (id : N) (b : block) : option pev1 :=
-  if memN id (bConf1 b) then Some PForm1
-  else match find (fun t => fst (fst t) =? id) (bRev1 b) with
-       | Some t => Some (PRev1 (snd (fst t)) (snd t))
-       | None => if memN id (bSucc1 b) then Some PSucc1
-                 else if memN id (bFail1 b) then Some PFail1 else None
-       end.
-
+  option_map snd (find (fun p => fst p =? id) (evs1 b)).
 Definition ev2_of (id : N) (b : block) : option pev2 :=
-  match find (fun p => fst p =? id) (bConf2 b) with
-  | Some p => Some (PForm2 (snd p))
-  | None =>
-    match find (fun t => fst (fst t) =? id) (bRev2 b) with
-    | Some t => Some (PRev2 (snd (fst t)) (snd t))
-    | None => if memN id (bSucc2 b) then Some PSucc2
-              else if memN id (bRen2 b) then Some PRen2
-              else if memN id (bFail2 b) then Some PFail2 else None
-    end
-  end.
+  option_map snd (find (fun p => fst p =? id) (evs2 b)).
 
 (** * chain columns of a row *)
 Record ch1 := mkH1 { h_st : st1; h_formed : bool; h_conf : N; h_res : option N }.
